@@ -1,6 +1,8 @@
 import Drivers.Proto
 import St4sd.Model.Repl
-/-! Model driver for property C03: `expand` = graph-level and text-level expansion of one workflow. -/
+import St4sd.Model.ReplVars
+/-! Model driver for property C03: `expand` = resolution of the replicate/aggregate attributes in the scope
+chain of every component (`ReplVars.resolveAll`), then graph-level and text-level expansion of one workflow. -/
 open Lean Proto St4sd.Repl St4sd.Str
 
 def getOptNat (j : Json) (k : String) : Except String (Option Nat) :=
@@ -18,10 +20,51 @@ def parseRef (j : Json) : Except String Ref := do
   else
     return { isComp := false, stage := 0, long := false, name := ← getChars j "text", file := none, method := [] }
 
-def parseComp (j : Json) : Except String (Comp × S) := do
+def parsePairs (l : List Json) : Except String Vars :=
+  l.mapM fun e => do
+    match (← e.getArr?).toList with
+    | [k, v] => return ((← k.getStr?).toList, (← v.getStr?).toList)
+    | _ => throw "pair expected"
+
+def getVars (j : Json) (k : String) : Except String Vars :=
+  match j.getObjVal? k with
+  | .ok Json.null => pure []
+  | .ok v => do parsePairs (← v.getArr?).toList
+  | .error _ => pure []
+
+/-- `null` | `{"lit": text}` | `{"var": name}` -/
+def getSpec (j : Json) (k : String) : Except String Spec :=
+  match j.getObjVal? k with
+  | .ok Json.null => pure .absent
+  | .error _ => pure .absent
+  | .ok v =>
+    match v.getObjVal? "var" with
+    | .ok n => do return .var (← n.getStr?).toList
+    | .error _ => do return .lit (← getChars v "lit")
+
+def parseRaw (j : Json) : Except String (Raw × S) := do
   let refs ← (← getArr j "refs").mapM parseRef
-  return ({ stage := ← getNat j "stage", name := ← getChars j "name", refs := refs, repl := ← getOptNat j "repl",
-            agg := ← getBool j "agg" }, ← getChars j "args")
+  return ({ stage := ← getNat j "stage", name := ← getChars j "name", refs := refs, vars := ← getVars j "vars",
+            replicate := ← getSpec j "repl", aggregate := ← getSpec j "agg" }, ← getChars j "args")
+
+def parseStageVars (j : Json) : Except String (List (Nat × Vars)) :=
+  match j.getObjVal? "svars" with
+  | .ok Json.null => pure []
+  | .error _ => pure []
+  | .ok v => do
+    (← v.getArr?).toList.mapM fun e => do
+      match (← e.getArr?).toList with
+      | [i, ps] => return (← i.getNat?, ← parsePairs (← ps.getArr?).toList)
+      | _ => throw "stage scope expected"
+
+/-- the resolved components (with their command lines) or the kind of the resolution error -/
+def parseComps (j : Json) : Except String (List Raw × (Except RErr (List (Comp × S)))) := do
+  let rs ← (← getArr j "comps").mapM parseRaw
+  let g ← getVars j "gvars"
+  let sv ← parseStageVars j
+  match resolveAll g (stageVars sv) (rs.map (·.1)) with
+  | .error e => return (rs.map (·.1), .error e)
+  | .ok cs => return (rs.map (·.1), .ok (cs.zip (rs.map (·.2))))
 
 def cid (st : Nat) (nm : S) : Json := jstr (s!"stage{st}." ++ String.ofList nm)
 
@@ -29,9 +72,15 @@ def handle (j : Json) : Except String Json := do
   let op ← getStr j "op"
   match op with
   | "expand" =>
-    let cs ← (← getArr j "comps").mapM parseComp
+    let (raws, res) ← parseComps j
+    let inRefs := jarr (raws.map fun c => jarr (c.refs.map fun r => jchars (render r)))
+    match res with
+    | .error e =>
+      let k := match e with | .unresolved => "unresolved" | .convert => "convert"
+      return jobj [("error", jstr k), ("in_refs", inRefs), ("comps", jarr [])]
+    | .ok cs =>
     let wf := cs.map (·.1)
-    let inRefs := jarr (wf.map fun c => jarr (c.refs.map fun r => jchars (render r)))
+    let resolved := jarr (wf.map fun c => jarr [cid c.stage c.name, jopt jnat c.repl, jbool c.agg])
     match expand wf with
     | .error e =>
       let k := match e with | .unknown => "unknown" | .inconsistent => "inconsistent" | .duplicate => "duplicate"
@@ -39,7 +88,7 @@ def handle (j : Json) : Except String Json := do
       let t := match e, goText [] [] cs with
         | .duplicate, some t => t
         | _, _ => []
-      return jobj [("error", jstr k), ("in_refs", inRefs),
+      return jobj [("error", jstr k), ("in_refs", inRefs), ("resolved", resolved),
         ("comps", jarr (t.map fun o => jobj [("id", cid o.stage o.name), ("refs", jarr (o.refs.map jchars))]))]
     | .ok out =>
       let t := (goText [] [] cs).getD []
@@ -49,10 +98,13 @@ def handle (j : Json) : Except String Json := do
         ("producers", jarr ((o.refs.filter (·.isComp)).map fun r => cid r.stage r.name)),
         ("replica", jopt jnat o.replica), ("replicate", jopt jnat o.repl)]
       let ej := (edges out).map fun e => jarr [cid e.1.1 e.1.2, cid e.2.1 e.2.2]
-      return jobj [("in_refs", inRefs), ("text", jarr tj), ("graph", jarr gj), ("edges", jarr ej)]
+      return jobj [("in_refs", inRefs), ("resolved", resolved), ("text", jarr tj), ("graph", jarr gj), ("edges", jarr ej)]
   | "replica_old" =>
     -- unrepaired compile_component_replica applied to the references of the last component for copy i
-    let cs ← (← getArr j "comps").mapM parseComp
+    let (_, res) ← parseComps j
+    let cs ← match res with
+      | .ok cs => pure cs
+      | .error _ => throw "unresolved attribute"
     let i ← getNat j "i"
     match cs.reverse with
     | [] => throw "no component"
